@@ -152,6 +152,12 @@ func (rn *runner) judge(r *rt.Result) *X {
 		}
 		x.Failf("body-blocked:"+where, "the scenario body never finished (execution ended %s): it is blocked in %q; alive: %v; log: %v", r.End, where, r.AliveSummary(), x.obs)
 	}
+	// An execution that used up its whole step budget never got anywhere near its end: on the
+	// unchanged tree no execution of any scenario does (the evidence lists how executions
+	// ended), so this is a goroutine that keeps running without blocking - a spin.
+	if r.End == rt.EndSteps && len(x.viol) == 0 {
+		x.Failf("spinning", "the execution used up its step budget without ending: some goroutine keeps running without ever blocking (a retry loop that makes no progress); alive: %v; log: %v", r.AliveSummary(), x.obs)
+	}
 	return x
 }
 
